@@ -242,6 +242,40 @@ impl Suite for C06Api {
                 );
                 cases.push(Case { class, input: Sx::tagged("expr", vec![table.sx(), layout.sx(), e.sx()]) });
             }
+            {
+                // constant on the LEFT of the operator over a nullable column without zeros: `100 / c`,
+                // `100 % c`, `k - c` (scalar-vector operators; NULL rows carry the placeholder 0 and must
+                // neither raise Overflow nor produce a value)
+                let n2 = 2 + r.below(12) as usize;
+                let null_at = r.below(n2 as u64) as usize;
+                let cells: Vec<V> = (0..n2)
+                    .map(|i| {
+                        if i == null_at || r.chance(1, 5) {
+                            V::Null
+                        } else {
+                            let x = r.range(1, 60);
+                            V::Int(if r.chance(1, 4) { -x } else { x })
+                        }
+                    })
+                    .collect();
+                let t2 = Table {
+                    cols: vec![
+                        Col { name: "id".into(), kind: Kind::Int, omit_when_null: false, cells: (0..n2 as i64).map(V::Int).collect() },
+                        Col { name: "c".into(), kind: Kind::Int, omit_when_null: ti % 2 == 0, cells },
+                    ],
+                };
+                let mut l2 = gen_layout(&mut r, n2, 3, false);
+                l2.bsize = l2.bsize.max(16); // one streaming batch per partition: keeps the known gap Q20 out of this slice
+                for _ in 0..2 {
+                    let op = *r.pick(&["div", "mod", "div", "mod", "sub", "add", "mul"]);
+                    let k = *r.pick(&[100i64, 7, -3, 1, 0, 1 << 40]);
+                    let mut e = AExpr::Bin(op, Box::new(AExpr::Const(k)), Box::new(AExpr::Col(0)));
+                    if r.chance(1, 4) {
+                        e = AExpr::Bin("add", Box::new(e), Box::new(AExpr::Const(1)));
+                    }
+                    cases.push(Case { class: format!("expr:const-left-{}:nullable", op), input: Sx::tagged("expr", vec![t2.sx(), l2.sx(), e.sx()]) });
+                }
+            }
             if ti % 20 == 3 {
                 // i64::MIN % -1 (= 0 since fix 5836e7f), MIN / -1 and (MIN + 1) / -1 (the conservative guard)
                 let a = vec![i64::MIN, i64::MIN + 1, i64::MIN + 2, i64::MIN + 7]; // narrow range: a wide one is C01's F19
@@ -299,6 +333,8 @@ impl Suite for C06Api {
                 // reference
                 let refs: Vec<Result<Option<i64>, ()>> = rows.iter().map(|row| ref_eval(&e, row)).collect();
                 let any_err = refs.iter().any(|x| x.is_err());
+                // is some partition evaluated in several streaming batches? (known gap Q20 needs that)
+                let streamed = if layout.partitions().iter().any(|p| *p > layout.bsize) { ":streamed" } else { "" };
                 let mut sentinel_only = false;
                 let mut value_for_null = false;
                 let (impl_out, oracle) = match &out {
@@ -331,7 +367,7 @@ impl Suite for C06Api {
                         } else {
                             None
                         };
-                        (Sx::l(vec![Sx::a("ok"), Sx::l(cells)]), oracle.map(|m| (if sentinel_only { "mismatch:expr:i64max-returned-as-null" } else if value_for_null { "mismatch:expr:value-for-null" } else { "mismatch:expr:wrong-value" }.to_string(), m)))
+                        (Sx::l(vec![Sx::a("ok"), Sx::l(cells)]), oracle.map(|m| (if sentinel_only { "mismatch:expr:i64max-returned-as-null".to_string() } else if value_for_null { format!("mismatch:expr:value-for-null{}", streamed) } else { "mismatch:expr:wrong-value".to_string() }, m)))
                     }
                     QOut::Err(kind, msg) if kind == "overflow" => (
                         Sx::l(vec![Sx::a("err"), Sx::a("overflow")]),
@@ -343,7 +379,7 @@ impl Suite for C06Api {
                             if guard {
                                 None
                             } else {
-                                Some(("mismatch:expr:spurious-overflow".to_string(), format!("`{}`: {} but every row has an exact result", sql, msg)))
+                                Some((format!("mismatch:expr:spurious-overflow{}", streamed), format!("`{}`: {} but every row has an exact result", sql, msg)))
                             }
                         },
                     ),
